@@ -501,6 +501,8 @@ def reconfigure(
     If *key* is provided, triples are sorted according to the key.
     """
     p = copy.deepcopy(g)
+    if top is None:
+        top = g.top  # an implicit top must not change with the triple order
     for epilist in p.epidata.values():
         epilist[:] = [
             epi for epi in epilist if not isinstance(epi, LayoutMarker)
